@@ -284,6 +284,8 @@ pub fn run(report: &Report, thorough: bool) -> Evidence {
             // ... and the ANSI context of the suggestions-off walks is a re-configured one (created with every option
             // inverted, then update_engine)
             o.via_update = ansi && !psugg;
+            // the others: a Config object that has held the opposite value of every option before
+            o.churn = !o.reversed_setters && !o.via_update;
             crate::drv::clear_user_files(&o);
             Ctx::new(&o).expect("ctx")
         };
@@ -469,6 +471,7 @@ pub fn run(report: &Report, thorough: bool) -> Evidence {
             o.reversed_setters = kar;
             // the ANSI context of the plain-joining walks is a re-configured one
             o.via_update = ansi && !kar;
+            o.churn = !o.reversed_setters && !o.via_update;
             Ctx::new(&o).expect("ctx")
         };
         let typed = AtomicU64::new(0);
